@@ -23,8 +23,8 @@ CONSTANTS
   DevAvg = FALSE
   DevArr = FALSE
   DevNul = FALSE
-  DevInd = TRUE
-  DevEncAvg = TRUE
+  DevInd = FALSE
+  DevEncAvg = FALSE
   RowAlph = {0, 1, 127, 128, 255}
   RowAlph3 = {0, 128, 255}
   DevEmpty = FALSE
